@@ -810,6 +810,15 @@ func (ex *Exec) evalCall(e *SExpr, env *SpecEnv) (Val, types.Type) {
 			}
 			t := ex.resolveType(typeExprString(args[1]), env.pkg)
 			return Eq(ex.asIface(a).Tag, typeTag(t)), boolT
+		case "any":
+			a, t := ex.evalSpec(args[0], env)
+			if t == nil {
+				specFail("any() of untyped value")
+			}
+			if _, ok := a.(*IfaceV); ok {
+				return a, t
+			}
+			return &IfaceV{Tag: typeTag(t), Data: box(t, a)}, types.Universe.Lookup("any").Type()
 		case "isnil":
 			a, t := ex.evalSpec(args[0], env)
 			return ex.valEq(t, a, zeroVal(t)), boolT
